@@ -23,6 +23,11 @@ After every operation (clauses are sentences of the property statement):
     K5.hooks_fired  through Ombott.__call__: the hooks that fire for a served path are exactly
                     spec.hook_calls(matched rule, path, surviving hooks): rule-extends, outermost first, matched prefix;
                     all of them before the handler, the handler once
+    K6.handler_kwargs  through Ombott.__call__: the handler of a surviving route receives exactly the parameters of its own
+                    rule (names as the route's rule spells them, values by spec.match) - a hook installed on, replaced on
+                    or removed from the same pattern under OTHER wildcard names leaves the route intact
+K1.resolve compares handler, the parameter dict (names, value types, values) and the collected hooks+positions; the fresh
+router is built twice (hooks after / before the routes) and the edited router must agree with both builds.
 Random walks (length 40) over a larger universe are checked after every step; a walk restarts from an empty router after
 a failure so that known defects do not end it.
 """
@@ -45,7 +50,13 @@ BOUND = ('7 universes (quick; thorough adds an 8th): literal split/merge nodes /
          'universe of DESIGN.md, checked after every step, restarting after a failure; plus MULTI-METHOD registrations (one '
          'call with a list of 2-3 methods over GET/POST/PUT, refused as a whole when its first, middle or last method is '
          'taken; with overwrite; with a name): a universe /item,/item/:x,/other of 18 operations explored like the others, '
-         'and 40 (thorough 1200) random walks over the DESIGN.md universe with 10 single/multi-method adds per rule')
+         'and 40 (thorough 1200) random walks over the DESIGN.md universe with 10 single/multi-method adds per rule; plus HOOK '
+         'RULES THAT RENAME THE WILDCARDS of a route pattern (/users/:id vs hook /users/:uid, /users/:id/posts/:pid vs hook '
+         '/users/:u/posts/: (anonymous), <n:int> vs <k:int>, a:x/:y vs hook a:y/:x, <p:path> vs <q:path>, :x/b vs :w/b): two '
+         'universes of 18 / 16 operations, quick: all histories of length <= 3 and of length <= 4 behind an add+hook/unhook '
+         'pair (thorough: <= 5 like the others), and 60 (thorough 1500) random walks over the DESIGN.md universe with the '
+         'hook rules /a/:u, /a/:v/b, /a/b; every fresh router is built twice (hooks after / before the routes) and, through '
+         '__call__, the kwargs handed to the handler are compared with the independent matcher on the route\'s own rule')
 NONTRIVIAL_RULE = 'distinct (universe, prefix, depth) or walk; every case replays at least one edit and checks >= 1 state'
 
 
@@ -119,6 +130,24 @@ def _universes():
         ops=[A(0, G), A(0, P), A(0, T), A(0, [P, G]), A(0, [G, P]), A(0, [T, P, G]), A(0, [P, T]), A(0, [P, G], 1),
              A(1, [G, P]), A(1, P), A(1, [T, P], 0, 'n1'), A(2, [P, G], 0, 'n1'), A(2, G),
              ['rm', 0], ['rm', 1], ['rmname', 'n1'], ['rmprefix', 0], ['hook', 0, 'H0']])
+    # hook rules that spell the wildcards of a route's pattern with OTHER names (and anonymously): installing / replacing /
+    # removing such a hook must leave the parameter names of the route alone - "survivors are intact"
+    i_, pid, uid, u_, k_ = W('id'), W('pid'), W('uid'), W('u'), W('k', 'int')
+    U['hooknames'] = dict(
+        rules=[R('/users'), R('/users/', i_), R('/users/', i_, '/posts/', pid), R('/f/', n)],
+        hooks=[R('/users/', uid), R('/users/', u_, '/posts/', W(None)), R('/f/', k_), R('/users')],
+        names=['n1'], prefixes=[[R('/users/'), 'colon']],
+        ops=[A(0), A(1), A(1, 'POST', 0, 'n1'), A(2), A(3), ['rm', 1], ['rm', 2], ['rm', 3], ['hook', 0, 'H0'], ['hook', 0, 'H0b'],
+             ['unhook', 0], ['hook', 1, 'H1'], ['unhook', 1], ['hook', 2, 'H2'], ['unhook', 2], ['hook', 3, 'H3'],
+             ['rmprefix', 0], A(1, 'GET', 1)])
+    # the same on in-segment wildcards, two wildcards in one rule renamed crosswise (x<->y) and a path filter
+    y = W('y')
+    U['hooknames2'] = dict(
+        rules=[R('/a', x, '/', y), R('/a', x), R('/d/', p), R('/', x, '/b')],
+        hooks=[R('/a', y, '/', x), R('/a', W('z')), R('/d/', W('q', 'path')), R('/', W('w'), '/b')],
+        names=[], prefixes=[[R('/a'), 'colon']],
+        ops=[A(0), A(1), A(2), A(3), ['rm', 0], ['rm', 1], ['rm', 2], ['hook', 0, 'H0'], ['unhook', 0], ['hook', 1, 'H1'],
+             ['unhook', 1], ['hook', 2, 'H2'], ['unhook', 2], ['hook', 3, 'H3'], ['unhook', 3], ['rmprefix', 0]])
     # the universe of DESIGN.md (random walks)
     rules8 = [R('/ab'), R('/abc'), R('/abd'), R('/a/', x), R('/a/', x, '/b'), R('/a/', n), R('/a/b'), R('/')]
     ops = []
@@ -139,6 +168,12 @@ def _universes():
         mops += [['hook', hi, 'H%d' % hi], ['unhook', hi]]
     mops += [['rmname', 'n1'], ['rmname', 'n2'], ['rmprefix', 0], ['rmprefix', 1], ['rmprefix', 2]]
     U['design8m'] = dict(U['design8'], ops=mops)
+    # ... and with hook rules that rename the wildcards of the route patterns (a third set of random walks)
+    hops = list(ops)
+    for hi in range(3, 5):
+        hops += [['hook', hi, 'H%d' % hi], ['hook', hi, 'H%db' % hi], ['unhook', hi], ['unhook', hi]]
+    U['design8h'] = dict(U['design8'], ops=hops,
+                         hooks=[R('/ab'), R('/a/', W('u')), R('/a'), R('/a/', W('v'), '/b'), R('/a/b')])
     for u in U.values():
         u['rules'] = [[r, 'colon'] for r in u['rules']]
         u['hooks'] = [[r, 'colon'] for r in u['hooks']]
@@ -186,12 +221,18 @@ def _mkcase(uname, prefix, depth):
 
 def gen_cases(tier, seed):
     cases = []
-    scen = ['split', 'wild', 'hookonly', 'names', 'root', 'paramkids', 'inseg', 'multi']
+    scen = ['split', 'wild', 'hookonly', 'names', 'root', 'paramkids', 'inseg', 'multi', 'hooknames', 'hooknames2']
     for uname in scen:
         ops = UNIVERSES[uname]['ops']
         if tier == 'quick' and uname == 'inseg':
             continue
-        if tier == 'quick':
+        if tier == 'quick' and uname.startswith('hooknames'):
+            # all histories of length <= 3; of length <= 4 behind a route registration and a hook op (in either order)
+            for o1 in ops:
+                for o2 in ops:
+                    mixed = {o1[0], o2[0]} in ({'add', 'hook'}, {'add', 'unhook'})
+                    cases.append(_mkcase(uname, [o1, o2], 2 if mixed else 1))
+        elif tier == 'quick':
             for o1 in ops:
                 for o2 in ops:
                     cases.append(_mkcase(uname, [o1, o2], 2))
@@ -209,6 +250,11 @@ def gen_cases(tier, seed):
     for _ in range(40 if tier == 'quick' else 1200):
         walk = [rnd.choice(u['ops']) for _k in range(40)]
         cases.append(dict(kind='walk', universe='design8m', rules=u['rules'], hooks=u['hooks'], names=u['names'],
+                          prefixes=u['prefixes'], probes=u['probes'], walk=walk))
+    u = UNIVERSES['design8h']
+    for _ in range(60 if tier == 'quick' else 1500):
+        walk = [rnd.choice(u['ops']) for _k in range(40)]
+        cases.append(dict(kind='walk', universe='design8h', rules=u['rules'], hooks=u['hooks'], names=u['names'],
                           prefixes=u['prefixes'], probes=u['probes'], walk=walk))
     random.Random(4242).shuffle(cases)
     return cases
@@ -363,18 +409,23 @@ class World:
             return '%s: %s' % (type(e).__name__, str(e)[:160])
         return None
 
-    def fresh(self, model):
-        """A router freshly built from the surviving routes, names and hooks (universe order)."""
+    def fresh(self, model, hooks_first=False):
+        """A router freshly built from the surviving routes, names and hooks (universe order; the statement does not say
+        whether a fresh build installs the hooks after or before the routes, so both builds are references)."""
         from ombott.router.radirouter import RadiRouter
         r = RadiRouter()
+        if hooks_first:
+            for hi in sorted(model.hooks):
+                r.add_hook(self.htext[hi], self.hookfn(model.hooks[hi]))
         for key in sorted(model.routes, key=model.rkeys.index):
             ri, table = model.routes[key]
             for m, hid in table.items():
                 r.add(self.rtext[ri], m, self.handler(hid))
         for nm, key in sorted(model.names.items()):
             r.add(self.rtext[model.routes[key][0]], [], self.handler('-'), nm, overwrite=True)
-        for hi in sorted(model.hooks):
-            r.add_hook(self.htext[hi], self.hookfn(model.hooks[hi]))
+        if not hooks_first:
+            for hi in sorted(model.hooks):
+                r.add_hook(self.htext[hi], self.hookfn(model.hooks[hi]))
         return r
 
 
@@ -449,6 +500,10 @@ def _fresh_view(world, model):
             names=[_lookup(F, nm) for nm in case['names']],
             rules=[_lookup(F, {text}) for text in world.rtext],
             index=sorted((p, _route_repr(r)) for p, r in F.routes.items()))
+        if model.hooks and model.routes:
+            F2 = world.fresh(model, hooks_first=True)
+            view['obs_hooks_first'] = [[_observe(F2, path, verb, model.unspec) for verb in ('GET', 'POST')]
+                                       for path in case['probes']]
         world.fresh_cache[key] = view
     return view
 
@@ -460,6 +515,7 @@ def check_state(world, app, model):
     view = _fresh_view(world, model)
     unspec = model.unspec
     served = []
+    obs2 = view.get('obs_hooks_first')
     for pi, path in enumerate(case['probes']):
         for vi, verb in enumerate(('GET', 'POST')):
             oe = _observe(E, path, verb, unspec)
@@ -471,6 +527,9 @@ def check_state(world, app, model):
                     det['hook_extra'] = [h for h in he if h not in hf]
                     det['hook_missing'] = [h for h in hf if h not in he]
                 return 'K1.resolve', det
+            if obs2 is not None and oe != obs2[pi][vi]:
+                return 'K1.resolve', dict(path=path, verb=verb, edited=oe, fresh=obs2[pi][vi],
+                                          fresh_build='hooks installed before the routes')
             if oe[0] == 'ok' and (not served or served[-1][0] != path):
                 served.append((path, verb, oe[1]))
     for ni, nm in enumerate(case['names']):
@@ -511,6 +570,13 @@ def check_state(world, app, model):
         if res.code != 200 or len(handled) != 1 or handled[0] != len(log) - 1 or log[-1][1] != hid:
             det['log'] = [list(e[:2]) for e in log]
             return 'K5.hooks_fired', det
+        # a surviving route is intact: its handler is called with the parameters of ITS OWN rule (names and values by the
+        # independent matcher), whatever hooks were installed on / removed from the same pattern in the meantime
+        want = S.match(rule, path)['params']
+        got = log[-1][2]
+        if not RC.same_params(got, want):
+            return 'K6.handler_kwargs', dict(path=path, verb=verb, matched_rule=world.rtext[ri], expected=want, observed=got,
+                                             hooks=[world.htext[hi] for hi in sorted(model.hooks)])
     return None
 
 
